@@ -33,7 +33,12 @@ func init() {
 		"dataChan": {Lock: "dataChanMux"}, "sinks": {Lock: "sinksMux"}, "syncSinks": {Lock: "sinksMux"},
 	}
 	guardTables["cep.Engine"] = map[string]GuardSpec{
-		"partMap": {Lock: "mu"}, "lru": {Lock: "mu"}, "seq": {Lock: "mu"}, "started": {Lock: "startMu"}, "cancel": {Lock: "startMu"},
+		"partMap": {Lock: "mu"}, "lru": {Lock: "mu"}, "started": {Lock: "startMu"}, "cancel": {Lock: "startMu"},
+	}
+	// per-partition matcher state lives in objects owned by the engine and is guarded by the engine's lock
+	guardTables["cep.partition"] = map[string]GuardSpec{
+		"runs": {Lock: "mu", LockOwner: "cep.Engine"}, "pending": {Lock: "mu", LockOwner: "cep.Engine"}, "matchNo": {Lock: "mu", LockOwner: "cep.Engine"},
+		"seq": {Lock: "mu", LockOwner: "cep.Engine"}, "nextStart": {Lock: "mu", LockOwner: "cep.Engine"},
 	}
 	guardTables["functions.FunctionRegistry"] = map[string]GuardSpec{"functions": {Lock: "mu"}, "snapshot": {Lock: "mu"}}
 	guardTables["functions.ExprBridge"] = map[string]GuardSpec{
